@@ -186,6 +186,8 @@ type Rec struct {
 	Digests map[string]struct{} // distinct post-state digests seen (evidence)
 	Ops     int
 	Panics  int
+	batch   bool
+	items   [][]byte
 }
 
 func NewRec(d TreeDriver, t int, tr *Trace, seed int64) *Rec {
@@ -259,10 +261,13 @@ func guard(f func()) (msg string) {
 	return ""
 }
 
-// tail writes the fields common to every tree line and emits it.
+// tail writes the fields common to every tree line and emits it (or, inside a
+// batch of read-only calls, appends it to the batch).
 func (r *Rec) tail(pan string, withDump bool) {
 	tr := r.Tr
-	tr.fInt("t", r.T)
+	if !r.batch {
+		tr.fInt("t", r.T)
+	}
 	tr.fStr("pan", pan)
 	if pan != "" {
 		r.Dead = true
@@ -271,7 +276,7 @@ func (r *Rec) tail(pan string, withDump bool) {
 		tr.fStr("dg", "")
 		tr.fStr("sg", "")
 		tr.fBool("hasd", false)
-		tr.emit()
+		r.out()
 		return
 	}
 	var n *art.VerifNode
@@ -282,15 +287,20 @@ func (r *Rec) tail(pan string, withDump bool) {
 		tr.fStr("dg", "walker-fault:"+p2)
 		tr.fStr("sg", "walker-fault:"+p2)
 		tr.fBool("hasd", false)
-		tr.emit()
+		r.out()
 		r.Dead = true
 		return
 	}
 	tr.fInt("sz", r.D.Size())
 	dg := digestDump(r.D, n, sz, true)
 	tr.fStr("dg", dg)
-	tr.fStr("sg", digestDump(r.D, n, sz, false))
-	r.Digests[dg] = struct{}{}
+	if !r.batch {
+		sg := digestDump(r.D, n, sz, false)
+		tr.fStr("sg", sg)
+		if sz >= 2 { // distinct non-trivial structures reached (values ignored)
+			r.Digests[sg] = struct{}{}
+		}
+	}
 	if withDump {
 		tr.fBool("hasd", true)
 		tr.buf = append(tr.buf, `,"dump":`...)
@@ -298,8 +308,114 @@ func (r *Rec) tail(pan string, withDump bool) {
 	} else {
 		tr.fBool("hasd", false)
 	}
-	tr.emit()
+	r.out()
 	r.Ops++
+}
+
+func (r *Rec) out() {
+	if r.batch {
+		it := make([]byte, len(r.Tr.buf)+1)
+		copy(it, r.Tr.buf)
+		it[len(it)-1] = '}'
+		r.items = append(r.items, it)
+		return
+	}
+	r.Tr.emit()
+}
+
+// BeginBatch / EndBatch: the read-only calls in between are logged as ONE line.
+func (r *Rec) BeginBatch() {
+	if r.Dead {
+		return
+	}
+	r.batch = true
+	r.items = r.items[:0]
+}
+
+func (r *Rec) EndBatch() {
+	if !r.batch {
+		return
+	}
+	r.batch = false
+	if len(r.items) == 0 {
+		return
+	}
+	tr := r.Tr
+	tr.start("Batch")
+	tr.fInt("t", r.T)
+	tr.buf = append(tr.buf, `,"items":[`...)
+	for i, it := range r.items {
+		if i > 0 {
+			tr.buf = append(tr.buf, ',')
+		}
+		tr.buf = append(tr.buf, it...)
+	}
+	tr.buf = append(tr.buf, ']')
+	tr.emit()
+}
+
+// Pre applies mutating calls whose individual results are not examined again
+// (the prefix of a model transition) and logs them as one line.
+func (r *Rec) Pre(ops []opT) {
+	if r.Dead || len(ops) == 0 {
+		return
+	}
+	type done struct {
+		op   string
+		k, v int
+	}
+	var applied []done
+	flush := func() {
+		tr := r.Tr
+		tr.start("Pre")
+		tr.buf = append(tr.buf, `,"ops":[`...)
+		for i, d := range applied {
+			if i > 0 {
+				tr.buf = append(tr.buf, ',')
+			}
+			tr.buf = append(tr.buf, '[', '"')
+			tr.buf = append(tr.buf, d.op...)
+			tr.buf = append(tr.buf, '"', ',')
+			tr.buf = strconv.AppendInt(tr.buf, int64(d.k), 10)
+			tr.buf = append(tr.buf, ',')
+			tr.buf = strconv.AppendInt(tr.buf, int64(d.v), 10)
+			tr.buf = append(tr.buf, ']')
+		}
+		tr.buf = append(tr.buf, ']')
+		r.tail("", false)
+	}
+	for _, o := range ops {
+		switch o.Op {
+		case "I":
+			r.nextVal++
+			v := r.nextVal
+			if pan := guard(func() { r.D.Insert(o.K, v) }); pan != "" {
+				if len(applied) > 0 {
+					flush()
+				}
+				r.Tr.start("Insert")
+				r.Tr.fInt("k", o.K)
+				r.Tr.fInt("v", v)
+				r.tail(pan, false)
+				return
+			}
+			applied = append(applied, done{"I", o.K, v})
+		case "D":
+			var res bool
+			if pan := guard(func() { res = r.D.Delete(o.K) }); pan != "" {
+				if len(applied) > 0 {
+					flush()
+				}
+				r.Tr.start("Delete")
+				r.Tr.fInt("k", o.K)
+				r.Tr.fBool("res", res)
+				r.tail(pan, false)
+				return
+			}
+			applied = append(applied, done{"D", o.K, 0})
+		}
+	}
+	flush()
 }
 
 func (r *Rec) Insert(k int) {
@@ -502,6 +618,8 @@ func (r *Rec) RangePair(a, b int) {
 }
 
 func (r *Rec) RunBattery(bt Battery) {
+	r.BeginBatch()
+	defer r.EndBatch()
 	d := r.D
 	n := len(d.Universe())
 	if bt.Search {
